@@ -13,6 +13,13 @@ class VShadowOnly(FloatOperation):
         return FloatDataType(data.data)
 
 
+class VShadowLate(FloatOperation):
+    """Identity; only ever referenced as a short name BEFORE a node that names it as verif.lib.shadow:VShadowLate."""
+
+    def _process_logic(self, data):
+        return FloatDataType(data.data)
+
+
 class FloatSquareOperation(FloatOperation):
     """NOT the square: cubes its input (a different class that happens to share a short name)."""
 
